@@ -721,6 +721,28 @@ theorem GInv.removeInteraction {m : LBqm Rat} (g : GInv m) (u v : Label) :
       by_cases a1 : a = v <;> by_cases a2 : a = u <;> by_cases b1 : b = v <;> by_cases b2 : b = u <;>
         simp_all [eq_comm]
 
+theorem GInv.setQuadratic {m : LBqm Rat} (g : GInv m) (u v : Label) (b : Rat) :
+    GInv (match m.setQuadratic u v b with | .ok m' => m' | .error _ => m) := by
+  unfold LBqm.setQuadratic
+  by_cases huv : u = v
+  · simp only [huv, if_true]; exact g
+  · simp only [huv, if_false]
+    unfold LBqm.addVariable
+    have g2 := (g.addLinear u 0).addLinear v 0
+    have hv2 : v ∈ okeys ((m.addLinear u 0).addLinear v 0).adj := by
+      unfold LBqm.addLinear; exact mem_set_self _ _ _
+    have hu2 : u ∈ okeys ((m.addLinear u 0).addLinear v 0).adj := by
+      have : u ∈ okeys (m.addLinear u 0).adj := by unfold LBqm.addLinear; exact mem_set_self _ _ _
+      unfold LBqm.addLinear at this ⊢
+      exact (mem_okeys_set _ _ _ _).mpr (Or.inr this)
+    generalize (m.addLinear u 0).addLinear v 0 = m2 at g2 hv2 hu2 ⊢
+    obtain ⟨nu, hnu⟩ := Option.isSome_iff_exists.mp ((isSome_get?_iff _ _).mpr hu2)
+    obtain ⟨nv, hnv⟩ := Option.isSome_iff_exists.mp ((isSome_get?_iff _ _).mpr hv2)
+    have hgv : ODict.get? (ODict.set m2.adj u (ODict.set nu v b)) v = some nv := by
+      rw [get?_set_ne _ _ _ _ huv]; exact hnv
+    simp only [hnu, Option.getD_some, hgv]
+    exact g2.quadSet u v huv nu nv hnu hnv b
+
 /-! ### `change_vartype` keeps the invariant -/
 
 def cvVal (t : PyTable Rat) (u : Label) (nu : ODict Label Rat) (k : Label) (x : Rat) : Rat :=
@@ -1161,6 +1183,7 @@ theorem GInv.hstep {m : LBqm Rat} (g : GInv m) (op : HOp Rat) : GInv (m.hstep op
   | addLinear v b => exact g.addLinear v b
   | setLinear v b => exact g.setLinear v b
   | addQuadratic u v b => exact g.addQuadratic u v b
+  | setQuadratic u v b => exact g.setQuadratic u v b
   | removeInteraction u v => exact g.removeInteraction u v
   | removeVariable v => exact g.removeVariable v
   | relabel old new =>
@@ -1501,6 +1524,7 @@ theorem GInv.vstep {m : LBqm Rat} (g : GInv m) (c : VT × VOp Rat) : GInv (m.vst
     cases h : View.setOffset viewTables view m b with
     | error e => exact g
     | ok m' => exact g.vSetOffset_ok _ view b h
+  | baseSetQuadratic u v b => exact g.hstep (.setQuadratic u v b)
   | relabel old new => exact g.hstep (.relabel old new)
   | changeVartype vt => exact g.hstep (.changeVartype vt)
 
